@@ -316,6 +316,18 @@ def annotate_lets(root):
                 inits[p["lid"]] = n["init"]
             elif p.get("k") == "Bind" and "sub" not in p:
                 minits[p["lid"]] = n["init"]
+            elif p.get("k") == "Tuple":
+                # `let (a, b) = (x, y);` / `= { ..; (x, y) }`: element-wise
+                src = peel(n["init"])
+                while isinstance(src, dict) and src.get("k") == "Block" and "expr" in src:
+                    src = peel(src["expr"])
+                if isinstance(src, dict) and src.get("k") == "Tup" and len(src["elems"]) == len(p["pats"]):
+                    for sub, el in zip(p["pats"], src["elems"]):
+                        if sub.get("k") == "Bind" and "sub" not in sub:
+                            if "Mut" not in (sub.get("mode") or ""):
+                                inits[sub["lid"]] = el
+                            else:
+                                minits[sub["lid"]] = el
         if n.get("k") in ("Assign", "AssignOp"):
             l = n.get("l") or {}
             if l.get("k") == "Path" and l.get("res") == "local":
